@@ -878,7 +878,9 @@ func (c *Conn) maxPayloadSizeForWrite(typ recordType) int {
 		case aead:
 			maxPayload -= ciph.Overhead()
 		case cbcMode:
-			maxPayload -= c.out.mac.Size()
+			// 密文由整数个分组构成，其中包含载荷、MAC 以及至少 1 字节的填充
+			blockSize := ciph.BlockSize()
+			maxPayload = maxPayload/blockSize*blockSize - c.out.mac.Size() - 1
 		}
 	}
 	if maxPayload > maxPlaintext {
